@@ -97,8 +97,164 @@ def api_close_sessions(chk):
             chk.violation("C16:api-not-released", f"after YncaApi.close() ({mode}) port open={s.port.is_open}, threads={[(t.name, t.state) for t in s.sim.threads]}", rep)
 
 
+def reconnect_sessions(chk):
+    """close() inside a message callback, and the same object connected again before that callback has returned
+    (from inside the callback, or by another thread while the callback is still busy): the old reader thread winds
+    down only afterwards, and its planned end must not be reported as a disconnect of the new session"""
+    import random
+
+    from .. import connscen as CS
+    from .. import conntrace as CT
+    from .. import dsim
+
+    rng = random.Random(chk.seed + 1616)
+    n = 30 if chk.tier == "quick" else 500
+    traces = []
+    for k in range(n):
+        case = {"mode": rng.choice(["connect-in-callback", "connect-by-other-thread"]), "seed": rng.randrange(1 << 30), "switch_prob": rng.choice([0.05, 0.3, 0.6]),
+                "busy_s": rng.choice([0.0, 0.05, 0.5]), "latency_us": rng.choice([0, 20000, 150000]), "log_size": rng.choice([0, 5])}
+        s = CT.Session(case["seed"], respond=CS.make_responder(random.Random(case["seed"]), "answer"), latency_us=case["latency_us"], switch_prob=case["switch_prob"])
+        errs = []
+        state = {"closed": False, "go": False, "reconnected": False}
+
+        def body(s, case=case, errs=errs, state=state):
+            from ynca.connection import YncaConnection
+
+            c = YncaConnection("sim://")
+            s.conn = c
+
+            def dcb():
+                s.disconnects.append(s.sim.now)
+
+            def guarded(tag, fn):
+                try:
+                    fn()
+                except dsim.SimAbort:
+                    raise
+                except BaseException as e:  # noqa
+                    errs.append((tag, type(e).__name__, str(e)[:100]))
+
+            def cb(st, sub, f, v):
+                if state["closed"]:
+                    return
+                state["closed"] = True
+                guarded("close-in-callback", c.close)
+                if case["mode"] == "connect-in-callback":
+                    guarded("connect-in-callback", lambda: c.connect(dcb, case["log_size"]))
+                    state["reconnected"] = True
+                else:
+                    state["go"] = True
+                    s.sleep(case["busy_s"] + 0.01)
+
+            def other():
+                while not state["go"]:
+                    s.sleep(0.005)
+                guarded("connect-by-other-thread", lambda: c.connect(dcb, case["log_size"]))
+                state["reconnected"] = True
+
+            c.register_message_callback(cb)
+            c.connect(dcb, case["log_size"])
+            t = s.sim.spawn(other, "caller1") if case["mode"] == "connect-by-other-thread" else None
+            c.get("MAIN", "VOL")
+            s.sleep(2.0)
+            if t is not None:
+                state["go"] = True
+                t.join()
+            s.sleep(1.0)
+            state["connected_after"] = bool(c.connected)
+            guarded("final-close", c.close)
+            s.sleep(0.5)
+
+        s.run(body)
+        chk.count_case({"reconnect": case}, True)
+        rep = {"reconnect_case": case}
+        if s.sim.failure is None:
+            traces.append((case, project_reconnect(s.sim.events), len(s.disconnects)))
+        if s.sim.failure is not None:
+            chk.violation("C16:reconnect-no-termination", f"close() in a callback followed by connect() ({case['mode']}) never came to rest: {s.sim.failure}", rep)
+        elif [e for e in errs if "close" in e[0]]:
+            chk.violation("C16:reconnect-close-raised", f"close() raised ({case['mode']}): {[e for e in errs if 'close' in e[0]][0]}", rep)
+        elif s.disconnects:
+            chk.violation("C16:reconnect-disconnect-reported", f"the disconnect callback was invoked {len(s.disconnects)} time(s) although the link was healthy throughout: a planned close() inside a message callback, then connect() on the same object ({case['mode']}) before the callback returned", rep)
+        elif any(t.state != "done" for t in s.sim.threads):
+            chk.violation("C16:reconnect-not-released", f"after the final close() threads are still running: {[(t.name, t.state) for t in s.sim.threads if t.state != 'done']}", rep)
+
+
+    return traces
+
+
+def project_reconnect(events):
+    """the steps of Model/Reconnect.v in a recorded session: close() of the first session (the flag set), connect()
+    re-arming the flag, the OLD reader's connection_lost reading the protocol's callback and calling it; up to the final
+    close() of the second session"""
+    acts, seen_close, old_read, got = [], 0, False, None
+    for e in events:
+        k = e["k"]
+        if k == "SetClosed":
+            seen_close += 1
+            if seen_close > 1:
+                break
+            acts.append("RClose")
+        elif k == "ClosedReset":
+            acts.append("RConnect")
+        elif k == "Get" and e.get("attr") == "_disconnect_callback" and e["th"].startswith("reader") and seen_close and not old_read:
+            old_read = True
+            got = e.get("val") is not None
+            acts += ["ROldRead", "ROldCall"]
+        elif k == "DisconnectCb" and old_read:
+            acts.append("ROldWrapper")
+    return acts, got
+
+
+def reconnect_correspondence(chk, traces):
+    """replay the recorded two-session traces in Model/Reconnect.v with the regenerated flags"""
+    from .. import coqio
+    from ..common import run_cases
+
+    if not traces or any(b["obligation"].startswith(("translator", "compile", "proof")) for b in chk.broken):
+        return 0
+    lines = [coqio.CASES_HEADER, "From Ynca Require Import Model.Reconnect Proofs.ReconnectFacts.\nOpen Scope nat_scope.\n"]
+    for i, (case, (acts, got), ndisc) in enumerate(traces):
+        lines.append(f"Definition tr{i} : list ract := [" + "; ".join(acts) + "].")
+    lines.append(
+        "Definition go (tr : list ract) : list N :=\n"
+        "  let '(s, d) := rrun_diag gen_rcfg rinit tr O in\n"
+        "  ((match d with None => [0%N] | Some n => [1%N; N.of_nat n] end) ++ [N.of_nat (r_user_calls s); (if r_old_cb s then 1%N else 0%N)] ++ [END; END2])%list.\n"
+    )
+    lines.append("Eval vm_compute in (" + " ++ ".join(f"go tr{i}" for i in range(len(traces))) + ")%list.\n")
+    ok, out = run_cases("c16_reconnect", "\n".join(lines))
+    if not ok:
+        chk.obligation_broken("cases c16_reconnect", out[-800:])
+        return 0
+    res = coqio.parse_flat2(out)
+    good = 0
+    nb = 0
+    for (case, (acts, got), ndisc), items in zip(traces, res):
+        t = items[0]
+        d = None
+        if t[0] != 0:
+            d = f"the model refuses step #{t[1]} of {acts}"
+            rest = t[2:]
+        else:
+            rest = t[1:]
+        if d is None and rest[0] != ndisc:
+            d = f"user disconnect callbacks: model {rest[0]} vs implementation {ndisc} for {acts}"
+        if d is None and got is not None and bool(rest[1]) != got:
+            d = f"the old protocol's callback when its reader ended: model {'set' if rest[1] else 'cleared'} vs implementation {'set' if got else 'cleared'} for {acts}"
+        if d is None:
+            good += 1
+        else:
+            nb += 1
+            if nb <= 3:
+                chk.obligation_broken(f"correspondence reconnect replay (seed {case['seed']})", d[:500])
+    chk.cov["reconnect_traces_validated"] = good
+    return good
+
+
 def run(chk):
     api_close_sessions(chk)
+    tr = reconnect_sessions(chk)
+    reconnect_correspondence(chk, tr)
     return run_life_check(
         chk, "C16", "Properties/C16.v", "close", LS.mon_c16, 400, 8000,
         "states x calling thread x repetitions x schedules: close() from the main thread and from 1-4 caller threads at random points of a command burst, 1-3 times each, concurrently; "
